@@ -193,7 +193,7 @@ CLAIMS['C17'] = dict(category='proof', ref='5 Core F, 8 C17',
          "thread and a consumer step asking for >= 1 byte lowers the measure (size+1)*work + unread, so after (size+1)*8*#packets fair segments every packet of "
          "length <= size is committed and every longer one refused (C17_wrap_progress, C17_wrap_eventually). The statement-level shape of writeMessage (Len before "
          "Lock, deferred Unlock, WriteWait(l), if wrap; growth test with make([]byte, l), Encode(svc.outtmp[0:]), Write(svc.outtmp[0:n]); Encode(buf[0:]), "
-         "WriteCommit(n)) is regenerated from sendrecv.go on every check (extract/facts_wrap.go, fatal on unrecognised statements) and equated with the model's step "
+         "WriteCommit(n)) is regenerated from sendrecv.go on every check (extract/facts_wrap.go; an unrecognised statement is a broken obligation) and equated with the model's step "
          "table, which is read off the model's steps on probe states (C17_wrap_shape_is_source). On the sequential broker model: the stream to a subscriber is the "
          "concatenation of per-event sends; a publisher's QoS 0/1 messages are delivered in publish order and QoS 2 hand-overs in exchange-opening order "
          "(C17_stream_per_event, C17_publisher_order, _precedes, C17_publisher_order_qos2, C17_qos2_fifo, C17_qos2_release_step). Tied by concurrent delivery runs "
@@ -375,7 +375,7 @@ CLAIMS['C05'] = dict(category='proof', ref='5 Core A/E/F, 8 C05',
 # ---- source tie by translation (extract/cmd/xlate, NOTES-xlate.md) ---------------------------------
 _XL = (" Source tie by translation: on every run the Go-subset translator extract/cmd/xlate regenerates Lean definitions of "
        "whitelisted functions from the Go source (Generated/Xlate.lean) and theorems state that they equal the model functions: %s "
-       "A change of such a function breaks the equality proof; a rewrite the translator cannot read is fatal (NOTES-xlate.md).")
+       "A change of such a function breaks the equality proof; a rewrite the translator cannot read is a broken obligation of the properties built from that function (NOTES-xlate.md, BUILDING.md).")
 _XLATE_TIES = {
  'C03': "header.msglen/Len/SetRemainingLength, msglen() and Len() of every message type, the standard library's binary.PutUvarint, "
         "ValidQos/ValidTopic/ValidVersion/SupportedVersions/Type.Valid/Type.DefaultFlags/ConnackCode.Valid/ValidConnackError "
